@@ -30,6 +30,11 @@ pub enum Action {
     BlackholeFor(u8, u32),
     /// deliver, then the client's socket rebinds to a new address
     RebindClient,
+    /// hold the genuine datagram back by 20 ms; with forging enabled, deliver forged variants of it
+    /// (claiming the genuine source address) during those 20 ms: 0 = every single-byte mutation
+    /// (x ^01/^80/^ff), 1 = every truncation, 2 = 64 garbage datagrams of the same size,
+    /// 3 = splices with the previous datagram of the same direction at every 16th cut point
+    Forge(u8),
 }
 
 impl Action {
@@ -44,6 +49,7 @@ impl Action {
             Action::BlackholeFrom(d) => format!("B{}", d),
             Action::BlackholeFor(d, ms) => format!("H{}:{}", d, ms),
             Action::RebindClient => "R".into(),
+            Action::Forge(k) => format!("F{}", k),
         }
     }
     pub fn parse(s: &str) -> Option<Action> {
@@ -64,6 +70,7 @@ impl Action {
                 Action::BlackholeFor(a.parse().ok()?, b.parse().ok()?)
             }
             "R" => Action::RebindClient,
+            "F" => Action::Forge(t.parse().ok()?),
             _ => return None,
         })
     }
@@ -97,6 +104,8 @@ pub struct Inject {
     pub payload: Vec<u8>,
     /// pretend to come from the genuine peer (true) or from an unrelated address (false)
     pub from_peer: bool,
+    /// source port of the unrelated address (replies are matched on it)
+    pub src_port: u16,
 }
 
 pub struct NetShared {
@@ -111,6 +120,10 @@ pub struct NetShared {
     pub rebinds: u32,
     pub schedule_errors: Vec<String>,
     pub mtu: usize,
+    /// false = differential baseline: Forge actions only delay the genuine datagram
+    pub forge_enabled: bool,
+    pub last_payload: [Option<Vec<u8>>; 2],
+    pub forged: u64,
 }
 
 pub struct ChoiceNet {
@@ -132,6 +145,9 @@ impl ChoiceNet {
             rebinds: 0,
             schedule_errors: Vec::new(),
             mtu,
+            forge_enabled: true,
+            last_payload: [None, None],
+            forged: 0,
         };
         ChoiceNet { shared: Arc::new(Mutex::new(shared)), rec }
     }
@@ -188,7 +204,7 @@ impl Network for ChoiceNet {
             for i in inj {
                 let (to_addr, peer_addr) = if i.to == SERVER { (sh.server_addr, sh.client_addr) } else { (sh.client_addr, sh.server_addr) };
                 if let (Some(to_addr), Some(peer_addr)) = (to_addr, peer_addr) {
-                    let claimed: SocketAddr = if i.from_peer { peer_addr } else { "9.9.9.9:9999".parse().unwrap() };
+                    let claimed: SocketAddr = if i.from_peer { peer_addr } else { SocketAddr::new("9.9.9.9".parse().unwrap(), i.src_port) };
                     let mut p = packet.clone();
                     p.payload = i.payload.clone();
                     // `deliver` switches: build the packet as if sent by `claimed` to `to_addr`
@@ -237,6 +253,7 @@ impl Network for ChoiceNet {
                 action = Action::Drop;
                 label = "mtu".into();
             }
+            let prev_payload = std::mem::replace(&mut sh.last_payload[dir], Some(packet.payload.clone()));
             let mut d = Dgram { idx, t: now, from, src, dst, payload: packet.payload.clone(), action: label, delivered_at: vec![], delivered_len: packet.payload.len(), delivered_intact: true };
             let ridx = {
                 let r = self.rec.0.lock().unwrap();
@@ -282,6 +299,76 @@ impl Network for ChoiceNet {
                     d.delivered_len = n;
                     self.rec.0.lock().unwrap().dgrams.push(d);
                     deliver(buffers, p, now + base, now, &self.rec, ridx);
+                }
+                Action::Forge(kind) => {
+                    self.rec.0.lock().unwrap().dgrams.push(d);
+                    let genuine = packet.payload.clone();
+                    let mut forgeries: Vec<Vec<u8>> = Vec::new();
+                    if sh.forge_enabled {
+                        match kind {
+                            0 => {
+                                for pos in 0..genuine.len() {
+                                    for mask in [0x01u8, 0x80, 0xff] {
+                                        let mut f = genuine.clone();
+                                        f[pos] ^= mask;
+                                        forgeries.push(f);
+                                    }
+                                }
+                            }
+                            1 => {
+                                for len in 0..genuine.len() {
+                                    forgeries.push(genuine[..len].to_vec());
+                                }
+                            }
+                            2 => {
+                                for k in 0..64u64 {
+                                    let mut f = vec![0u8; genuine.len()];
+                                    crate::mccore::prf_fill(0xF0 ^ k, idx as u64, &mut f);
+                                    // keep the header form of the genuine packet so that it is routed to the connection
+                                    f[0] = (f[0] & 0x3f) | (genuine[0] & 0xc0);
+                                    let keep = genuine.len().min(if genuine[0] & 0x80 != 0 { 6 } else { 17 });
+                                    if k % 2 == 0 {
+                                        f[..keep].copy_from_slice(&genuine[..keep]);
+                                    }
+                                    forgeries.push(f);
+                                }
+                            }
+                            _ => {
+                                if let Some(prev) = prev_payload.clone() {
+                                    let n = genuine.len().min(prev.len());
+                                    let mut cut = 1;
+                                    while cut < n {
+                                        let mut f = prev[..cut].to_vec();
+                                        f.extend_from_slice(&genuine[cut..]);
+                                        if f != genuine && f != prev {
+                                            forgeries.push(f);
+                                        }
+                                        let mut g = genuine[..cut].to_vec();
+                                        g.extend_from_slice(&prev[cut..]);
+                                        if g != genuine && g != prev {
+                                            forgeries.push(g);
+                                        }
+                                        cut += 16;
+                                    }
+                                }
+                            }
+                        }
+                    }
+                    // spread over the 20 ms so that the receive queue (1024 packets) never overflows
+                    let total = forgeries.len().max(1) as u64;
+                    for (k, f) in forgeries.into_iter().enumerate() {
+                        let mut p = packet.clone();
+                        p.payload = f;
+                        let at = now + base + (k as u64 * 19_000) / total;
+                        let ridx = {
+                            let mut r = self.rec.0.lock().unwrap();
+                            r.dgrams.push(Dgram { idx: u32::MAX, t: now, from: 2, src, dst, payload: Vec::new(), action: "forged".into(), delivered_at: vec![], delivered_len: p.payload.len(), delivered_intact: false });
+                            r.dgrams.len() - 1
+                        };
+                        sh.forged += 1;
+                        deliver(buffers, p, at, now, &self.rec, ridx);
+                    }
+                    deliver(buffers, packet, now + base + 20_000, now, &self.rec, ridx);
                 }
                 Action::RebindClient => {
                     self.rec.0.lock().unwrap().dgrams.push(d);
